@@ -35,3 +35,104 @@ def _(self: Hardware, path: Str) -> Str:
     assigns()
     raises(KeyError, when=forall(vals(self), lambda s: not names(s, path)))
     ensures(exists(vals(self), lambda s: names(s, path) and result == s.mount_point))
+
+
+# ---- the capacity check of the scheduler (C10): a location is valid for a job only if there is room on it ------------------------
+cls("AvailableLocation", name=Str, hardware=Opt[Hardware], slots=Opt[Int], stacked=Bool, wraps=Opt["AvailableLocation"])
+cls("Connector", deployment_name=Str)
+cls("ConnectorWrapper", bases=["Connector"], connector=Connector)
+cls("DefaultScheduler", hardware_locations=Dict[Str, Hardware])
+
+
+@spec
+def difference(capacity: Hardware, used: Hardware) -> Hardware:
+    """capacity - used (Hardware.__sub__, proved in C14)"""
+
+
+@spec
+def enough(free: Hardware, requirement: Hardware) -> Bool:
+    """free.satisfies(requirement) (Hardware.satisfies, proved in C14)"""
+
+
+@spec
+def nothing() -> Hardware:
+    """Hardware(): no cores, no memory, an empty root storage"""
+
+
+@spec
+def occupying(s: DefaultScheduler, job_name: Str, location: AvailableLocation) -> Int:
+    """len(self._get_running_jobs(job_name, location)): the jobs that hold a slot of the location"""
+
+
+@spec
+def key_of(deployment: Str, location: Str) -> Str:
+    """posixpath.join(deployment, location)"""
+
+
+@extern("posixpath.join", pure=True)
+def _(a: Str, b: Str) -> Str:
+    ensures(result == key_of(a, b))
+
+
+@extern("Hardware.__init__")
+def _(self: Hardware):
+    ensures(self is nothing())
+
+
+@extern("Hardware.__sub__", pure=True)
+def _(self: Hardware, other: Hardware) -> Hardware:
+    ensures(result is difference(self, other))
+
+
+@extern("Hardware.satisfies", pure=True)
+def _(self: Hardware, other: Hardware) -> Bool:
+    ensures(result == enough(self, other))
+
+
+@extern("DefaultScheduler._get_running_jobs", pure=True)
+def _(self: DefaultScheduler, job_name: Str, location: AvailableLocation) -> List[Str]:
+    ensures(len(result) == occupying(self, job_name, location))
+
+
+@pure
+def reserved_on(s: DefaultScheduler, name: Str) -> Hardware:
+    return s.hardware_locations[name] if name in s.hardware_locations else nothing()
+
+
+@pure
+def has_room(s: DefaultScheduler, location: AvailableLocation, requirement: Hardware, job_name: Str) -> Bool:
+    # hardware-aware location: what is left after the reservations satisfies the requirement — ALSO when nothing is reserved yet;
+    # otherwise: fewer occupying jobs than slots (one slot when the location does not say)
+    return (enough(difference(location.hardware, reserved_on(s, location.name)), requirement) if location.hardware is not None
+            else occupying(s, job_name, location) < (location.slots if location.slots is not None else 1))
+
+
+@pure
+def inner_of(c: Connector) -> Connector:
+    return cast(ConnectorWrapper, c).connector
+
+
+@contract("streamflow/scheduling/scheduler.py", "DefaultScheduler._is_valid")
+def _(self: DefaultScheduler, connector: Connector, location: AvailableLocation, hardware_requirements: Dict[Str, Hardware], job_name: Str) -> Bool:
+    requires(key_of(connector.deployment_name, location.name) in hardware_requirements)
+    requires(implies(location.stacked and location.wraps is not None, isinstance(connector, ConnectorWrapper)))
+    assigns()
+    raises(KeyError, strict=False)
+    # a location is valid for the job only if the location itself has room for the job's requirement there
+    ensures(implies(result, has_room(self, location, hardware_requirements[key_of(connector.deployment_name, location.name)], job_name)))
+    # ... and, when it is stacked on another one, only if that one has room for the requirement computed for it
+    ensures(implies(result and location.stacked and location.wraps is not None,
+                    has_room(self, location.wraps, hardware_requirements[key_of(inner_of(connector).deployment_name, location.wraps.name)], job_name)))
+    # and it IS valid when it has room and is not stacked on anything
+    ensures(implies(not (location.stacked and location.wraps is not None)
+                    and has_room(self, location, hardware_requirements[key_of(connector.deployment_name, location.name)], job_name), result))
+    ghost("loc0", location)
+    ghost("conn0", connector)
+    ghost("R0", hardware_requirements[key_of(connector.deployment_name, location.name)])
+    # the walk down the stack: nothing checked yet / the location itself checked, standing on what it is stacked on (or at the end) /
+    # that one checked too (deeper levels are checked the same way; the contract speaks of the first two)
+    invariant(0, (location is loc0 and connector is conn0 and hardware_requirement is R0)
+              or (has_room(self, loc0, R0, job_name) and (location == loc0.wraps if (loc0.stacked and loc0.wraps is not None) else location is None)
+                  and implies(location is not None, connector is inner_of(conn0) and hardware_requirement is hardware_requirements[key_of(inner_of(conn0).deployment_name, loc0.wraps.name)]))
+              or (has_room(self, loc0, R0, job_name) and loc0.stacked and loc0.wraps is not None
+                  and has_room(self, loc0.wraps, hardware_requirements[key_of(inner_of(conn0).deployment_name, loc0.wraps.name)], job_name)))
